@@ -452,7 +452,7 @@ func argvMkReplay(flags []configFlagInfo, argv []string) argvReplay {
 
 // ---- generators ---------------------------------------------------------------------------------------
 
-// the alphabet of the exhaustive tier (34 tokens)
+// the alphabet of the exhaustive tier (35 tokens)
 var argvAlphabet = []string{
 	"", "-", "--", "---x", "-=", "-x=", "--=v", "=",
 	"-b", "--b", "-b=false", "-b=maybe",
@@ -462,6 +462,7 @@ var argvAlphabet = []string{
 	"-help", "--help=0", "-config", "-config=",
 	"-nb", "--long-name", "-zz", "-zz=1",
 	"5", "v", "true", "-5", "a=b",
+	"-B", // an undefined name that differs from a defined one by case only
 }
 
 var argvNearMisses = []string{"-", "--", "---x", "-=", "-x=", "--=v", "---", "----", "-=x", "--=", "--==", "-x==", "- ", "-\x00", "--\xff", "-\xc3", "--x=", "=x", "-x-", "--x-=-"}
@@ -655,7 +656,7 @@ func configCleanEnv() func() {
 func argvRun(cfg Cfg) {
 	s := NewStream(cfg.Out, "argv")
 	defer s.Close()
-	s.Rule = "argument vectors for the real NewFlagSet(&struct).Parse: exhaustive over a 34-token alphabet (quick: <=3 tokens, thorough: <=4) on a fixed struct with every flag kind, plus random vectors (well-formed groups, near-misses, values that look like flags, bool+stray value, repeats, unknown names, '=' in values, random bytes) on the fixed struct and on random reflect.StructOf flag tables; non-trivial = at least one flag group consumed or a grammar error raised (distinct by canonical outcome line)"
+	s.Rule = "argument vectors for the real NewFlagSet(&struct).Parse: exhaustive over a 35-token alphabet (quick: <=3 tokens, thorough: <=4) on a fixed struct with every flag kind, plus random vectors (well-formed groups, near-misses, values that look like flags, bool+stray value, repeats, unknown names, '=' in values, random bytes) on the fixed struct and on random reflect.StructOf flag tables; non-trivial = at least one flag group consumed or a grammar error raised (distinct by canonical outcome line)"
 	restore := configCleanEnv()
 	defer restore()
 	// relative -config values must not hit files of the work directory: run in an empty directory
